@@ -2,7 +2,7 @@
 bytes::{BytesMut, Bytes, BufMut, Buf}, HashMap/HashSet (association list)."""
 import z3
 from values import *
-from interp import model, MODELS, runtime_type, seq_len, short, simp
+from interp import model, MODELS, runtime_type, seq_len, short, simp, has_wide
 import models_core
 from models_core import deref, as_items, as_slice, explode, val_eq, push_char
 from rtypes import base_name, type_str, subst, int_info
@@ -54,17 +54,38 @@ class Formatter:
     def __init__(self, out, opts=None): self.out = out; self.opts = opts or {}
 
 def fmt_one(I, a, opts):
-    if opts.get('width') or (opts.get('flags', 0) & ~0x20):          # 0x20 = fill char default bits
-        fl = opts.get('flags', 0)
-        # default flags value is fill=' ' encoded in the upper bits; accept only "no special flags"
-        if opts.get('width') or (fl & 0x1FE00000):
-            raise Unsupported('format width/flags')
+    fl = opts.get('flags', 0)
+    width = opts.get('width')
+    # FormattingOptions flags: 0-20 fill, 21 '+', 22 '-', 23 '#', 24 '0', 25/26 debug hex, 27 width set, 28 precision set, 29-30 alignment
+    if fl & 0x06E00000:
+        raise Unsupported('format flags %r' % (opts,))
     v = a.v
     if a.kind == 'display':
-        return display(I, deref(v), opts, a.ty)
-    if a.kind == 'debug':
-        return debug(I, deref(v), opts)
-    raise Unsupported('format trait ' + a.kind)
+        out = display(I, deref(v), opts, a.ty)
+    elif a.kind == 'debug':
+        out = debug(I, deref(v), opts)
+    else:
+        raise Unsupported('format trait ' + a.kind)
+    if width:
+        if any(isinstance(x, (DecRun, FloatLit, FloatRun)) or is_sym(x) and False for x in out):
+            raise Unsupported('format width on a symbolic number %r' % (opts,))
+        n = len(out)                 # width counts chars: every element is one char
+        if n < width:
+            dv = deref(v)
+            numeric = isinstance(dv, (int, float)) and not isinstance(dv, bool) or isinstance(dv, models_core.TypedInt)
+            fill = fl & 0x1FFFFF
+            align = (fl >> 29) & 3
+            if fl & 0x01000000 and numeric:
+                fill, align = ord('0'), 1
+            elif align == 3:
+                align = 1 if numeric else 0
+            pad = []
+            push_char(I, pad, fill)
+            k = width - n
+            if align == 0: out = out + pad * k
+            elif align == 1: out = pad * k + out
+            else: out = pad * (k // 2) + out + pad * (k - k // 2)
+    return out
 
 def dec_digits(n):
     return list(str(n).encode())
@@ -307,8 +328,11 @@ def m_bm_reserve(I, c, args, fr):
 def m_bm_truncate(I, c, args, fr):
     b = bytebuf(args[0])
     n = args[1]
-    if is_sym(n):
-        raise Unsupported('symbolic truncate length')
+    if is_sym(n) or has_wide(b.b):
+        from interp import resolve_offset
+        n = resolve_offset(I, b.b, n)
+        if n is None:
+            return UNIT
     if n < len(b.b):
         b.spare = b.b[n:] + b.spare          # the memory stays allocated (capacity is unchanged)
         del b.b[n:]
